@@ -296,7 +296,14 @@ func (p c20) RunRace(c *core.Ctx) {
 	}
 	r := world.Build(sc, world.Options{Extra: []any{scanner, second}})
 	cg := &closeGate{all: make(chan struct{}), rel: map[string]chan struct{}{}, instant: map[string]bool{}}
+	// gates overlap the Close calls in time, but their channels and mutex also order every goroutine
+	// after the whole launching loop - which would hide a race between that loop and its goroutines from
+	// the detector. Every second shutdown therefore runs the closers as they are: instantaneous.
+	gated := c.Index%2 == 0
 	for _, k := range closers {
+		if !gated {
+			continue
+		}
 		name := sc.Nodes[k].DisplayName()
 		cg.rel[name] = make(chan struct{})
 		cg.expected++
